@@ -93,7 +93,12 @@ impl Envelope {
     /// Returns an error if the data is not valid CBOR or does not represent
     /// a valid envelope structure.
     pub fn try_from_cbor_data(data: Vec<u8>) -> Result<Self> {
-        let cbor = CBOR::try_from_data(data)?;
+        let cbor = CBOR::try_from_data(&data)?;
+        // Only deterministic CBOR is acceptable: the decoded value must
+        // encode back to exactly the bytes that were given.
+        if cbor.to_cbor_data() != data {
+            anyhow::bail!("non-deterministic CBOR encoding")
+        }
         Self::try_from_cbor(cbor)
     }
 }
